@@ -31,17 +31,22 @@ META = dict(
 NAMES = [b"cat", b"job (retry) 2", b") (", b"a\nb c) S 1 2 3"]
 
 
+SCRIPTS = [["exit", "reuse", "process_iter", "is_running(0)", "process_iter"], ["process_iter", "exit", "reuse", "is_running(0)", "process_iter", "new_object", "process_iter"],
+           ["process_iter", "clock_step", "exit", "reuse", "process_iter", "is_running(0)", "clock_step", "process_iter"]]
+
+
 @harness("C02.identity", quick=[dict(K=2, with_clock=True), dict(K=3, with_clock=False), dict(K=3, with_clock=True), dict(K=2, with_clock=False, names=True), dict(K=3, with_clock=False, popen=True)]
-         + [dict(K=3, with_clock=False, ticks=t) for t in ([57, 58], [1000004, 1000005], [51204, 51205])],
-         thorough=[dict(K=4, with_clock=True), dict(K=5, with_clock=False), dict(K=5, with_clock=True), dict(K=3, with_clock=True, names=True), dict(K=4, with_clock=False, names=True), dict(K=4, with_clock=True, popen=True)]
+         + [dict(K=3, with_clock=False, ticks=t) for t in ([57, 58], [1000004, 1000005], [51204, 51205])] + [dict(K=len(s_), with_clock=True, script=s_) for s_ in SCRIPTS],
+         thorough=[dict(K=len(s_), with_clock=True, script=s_, names=True) for s_ in SCRIPTS] + [dict(K=4, with_clock=True), dict(K=5, with_clock=False), dict(K=5, with_clock=True), dict(K=3, with_clock=True, names=True), dict(K=4, with_clock=False, names=True), dict(K=4, with_clock=True, popen=True)]
          + [dict(K=4, with_clock=True, ticks=t) for t in ([57, 58], [113, 114, 115], [1000004, 1000005, 1000006], [51204, 51205])])
-def identity(ctx, K, with_clock, names=False, popen=False, ticks=None):
+def identity(ctx, K, with_clock, names=False, popen=False, ticks=None, script=None):
     """names: every incarnation carries a process name chosen from NAMES (parentheses, blanks, a newline, text that looks like the
     rest of a stat record) and may rename itself (event `rename`): the identity must not depend on the name.
     popen: the first object is a psutil.Popen (a Process subclass wrapping a subprocess.Popen stand-in whose returncode stays None:
     the child is reaped by somebody else -- os.waitpid() elsewhere, a SIGCHLD handler).
     ticks: concrete start ticks of successive incarnations instead of symbolic ones, so that the real float arithmetic of the code
-    runs on them (adjacent tick values whose float images are close): a sampled witness, outside the for-all claim."""
+    runs on them (adjacent tick values whose float images are close): a sampled witness, outside the for-all claim.
+    script: a fixed event skeleton (start ticks, boot times stay symbolic) for histories longer than the free ones."""
     k = simk.Kernel(ctx)
     simk.system_files(k)
     bt = [ctx.int("btime0", 10**9, 2 * 10**9)]
@@ -84,7 +89,7 @@ def identity(ctx, K, with_clock, names=False, popen=False, ticks=None):
             stack.enter_context(objs[0][0].oneshot())
             log.append("with obj0.oneshot():")
         for i in range(K):
-            ev = ctx.choice(f"ev{i}", events)
+            ev = script[i] if script else ctx.choice(f"ev{i}", events)
             log.append(ev)
             if ev == "exit":
                 state["listed"] = False
@@ -123,7 +128,10 @@ def identity(ctx, K, with_clock, names=False, popen=False, ticks=None):
                 if not r:
                     dead.add(0)
             elif ev == "process_iter":
-                list(psutil.process_iter())
+                for x in list(psutil.process_iter()):
+                    # the caller keeps what process_iter() hands out: an object it has just built denotes the current incarnation
+                    if x.pid == PID and not any(x is o for o, _ in objs):
+                        objs.append((x, state["inc"]))
             elif ev == "create_time(0)":
                 try:
                     objs[0][0].create_time()
